@@ -456,6 +456,26 @@ fn reopen() -> i32 {
             if round > 0 { let k = format!("key-{}-{}", round - 1, 3); m.delete(&k).unwrap(); model.remove(&k); }
         }
       }
+        // a map that was filled, completely emptied and closed: idle reopen, then refill with short and long keys over several sessions
+        for variant in 0..3 {
+            let _ = std::fs::remove_dir_all(&dir);
+            let p = FileDbParams { buckets_size: HashBucketsParam::BucketsSize(8), ..Default::default() };
+            { let db = abyssiniandb::open_file(&dir).unwrap(); let mut m = db.db_map_string_with_params("e", p.clone()).unwrap();
+              for i in 0..30 { m.put(&format!("k{i:02}"), &vec![i as u8; 5 + i]).unwrap(); }
+              for i in 0..30 { m.delete(&format!("k{i:02}")).unwrap(); } }
+            if variant >= 1 { let db = abyssiniandb::open_file(&dir).unwrap(); let mut m = db.db_map_string_with_params("e", p.clone()).unwrap(); if m.len().unwrap() != 0 { return Err("emptied map: len != 0 after reopen".into()); } }
+            let mut model: BTreeMap<String, Vec<u8>> = BTreeMap::new();
+            for session in 0..3 {
+                let db = abyssiniandb::open_file(&dir).unwrap(); let mut m = db.db_map_string_with_params("e", p.clone()).unwrap();
+                if m.len().unwrap() != model.len() as u64 { return Err(format!("emptied map (variant {variant}): len {} in session {session}, model {}", m.len().unwrap(), model.len())); }
+                for (k, v) in &model { if m.get(k).unwrap().as_ref() != Some(v) { return Err(format!("emptied map (variant {variant}): key {k:?} lost or changed in session {session}")); } }
+                let ks: Vec<String> = if (variant + session) % 2 == 0 { (0..6).map(|i| format!("k{i:02}-{session}")).collect() } else { (0..6).map(|i| format!("a-much-longer-key-than-before-{i:02}-{session}-{}", "x".repeat(20 + i * 9))).collect() };
+                for (i, k) in ks.iter().enumerate() { let v = vec![(session * 16 + i) as u8; 3 + i * 20]; m.put(k, &v).unwrap(); model.insert(k.clone(), v); }
+                for (k, v) in &model { if m.get(k).unwrap().as_ref() != Some(v) { return Err(format!("emptied map (variant {variant}): key {k:?} lost or changed right after the puts of session {session}")); } }
+                let it: BTreeMap<String, Vec<u8>> = m.iter().map(|(k, v)| (String::from_utf8_lossy(&k).to_string(), v)).collect();
+                if it != model { return Err(format!("emptied map (variant {variant}): iteration differs in session {session}")); }
+            }
+        }
         // within one session: the same name requested again with OTHER parameters is the same map (parameters of an existing map are ignored)
         let _ = std::fs::remove_dir_all(&dir);
         {
